@@ -280,6 +280,12 @@ func c08Build(d c08Desc, salt int) c08Built {
 		if d.Defect == "missingfield" {
 			line = "PROXY " + proto + " " + s + " " + t + " " + sp + "000"
 		}
+		switch d.Defect {
+		case "extranum":
+			line += " 3000"
+		case "extratext":
+			line += " more"
+		}
 		if d.Defect == "nocrlf" {
 			line += strings.Repeat("9", 120)
 			end = ""
